@@ -1097,19 +1097,11 @@ theorem independent_history_copy_unchanged (hdst : FileOk dst) (ho : owner ∈ k
 
 end
 
-/-- the driver's `append` (with the object test of the source link lists, `Store/CopyFrames.lean`) accepts
-only what `contAppend` accepts, with the same result: `independent_append`, `lu_contAppend` and the
+/-- the driver's `append` is `contAppend` (which makes the object test of the source link lists itself since the
+histories of C04 contain id-keeping copies too): it accepts only what `contAppend` accepts, with the same result: `independent_append`, `lu_contAppend` and the
 history theorems apply to it -/
 theorem contAppend20_refines {g g' : Graph} {c : Cont} {key : Key} (h : contAppend20 g c key = .ok g') :
-    contAppend g c key = .ok g' := by
-  unfold contAppend20 at h
-  split at h
-  · split at h
-    · split at h
-      · cases h
-      · exact h
-    · exact h
-  · exact h
+    contAppend g c key = .ok g' := h
 
 /-! ### deletion
 
